@@ -160,7 +160,6 @@ def dictJson {κ} (fk : κ → Json) (d : Dict κ) : Json :=
 def valJson : Val → Json
   | .simple d => dictJson (fun (c : Cand) => toJson c) d
   | .items d => dictJson itemJson d
-  | .itemSets d => dictJson (fun s => setJson (s.map itemJson)) d
   | .approval d => dictJson (fun s => setJson (s.map toJson)) d
   | .ranked d => dictJson ballotJson d
   | .score d => dictJson (fun s => setJson (s.map (fun cs => Json.arr #[toJson cs.1, ratJson cs.2]))) d
